@@ -15,6 +15,8 @@ RULES = {
     "DENS-source": "every value copied, values[s] / hsketch[s], is read under init[s] for the same s (only populated bins are copied)",
     "PAIR": "values[t] = values[s] and hsketch[t] = hsketch[s] occur together with the same (t, s); in sketch the value and the hash "
             "are written together under the same guard and the value's only data root is the item hash",
+    "DENS-SEED": "the generator that searches a donor for an empty bin is created inside the loop over the bins and seeded from the bin "
+                 "index (with the pass number for the reverse variant): the probe sequence of a bin is keyed by the bin alone",
     "BOOKKEEPING": "every init[x] = true is together with nb_empty -= 1 under !init[x]; nb_empty and init are written nowhere else "
                    "outside new/reinit",
     "IDEMPOTENT": "end_sketch and sketch_slice call the same finisher densify exactly once, under no condition other than "
@@ -118,6 +120,42 @@ def dens_rules(ctx, facts, prefix):
         else:
             ctx.violation("PAIR", fid, "%s copied alone" % f, hirq.loc(w), "`%s` has no matching `self.%s[%s] = self.%s[%s]` in the same block: value and hash views would disagree" % (nf.nf(w)[:60], other, tt, other, ss))
     return n_inst
+
+
+def dens_seed(ctx, facts, prefix):
+    """DENS-SEED: the generator that searches a donor for empty bin k is created for that bin (inside the loop over the bins) and
+    seeded from k: the probe sequence of a bin is keyed by the bin alone, so two sketchers fill their common empty bins from
+    the same places whatever else differs"""
+    from ..rulelib import seed_sites, for_loops
+    fid = prefix + "densify"
+    fn = facts.fn(fid)
+    t = tree_of(fn)
+    R = resolver_of(fn)
+    n = 0
+    fls = for_loops(fn)
+    for site in seed_sites(fn):
+        n += 1
+        enc = [f for f in fls if t.contains(f["body"], site)]
+        # the innermost enclosing `for` over the bins
+        bins = [f for f in enc if re.match(r"^std::ops::Range\{start:0, end:(self\.hsketch\.len\(\)|self\.values\.len\(\)|self\.init\.len\(\))\}$", nf.nf(f["iter"], True, res=R))]
+        if not bins:
+            ctx.violation("DENS-SEED", fid, "donor generator shared by the bins", hirq.loc(site),
+                          "the generator of the donor search is created outside the loop over the bins: the probe sequence of an empty bin then depends on how many "
+                          "draws the bins before it consumed, i.e. on the set")
+            continue
+        var = bins[-1]["pat"]
+        vids = {b["id"] for b in ([var] if var.get("k") == "Bind" else [])}
+        used = any(y["k"] == "Path" and y.get("res", {}).get("local") in vids for a in site["args"] for y in hirq.walk(a))
+        if not used:
+            # through immutable locals
+            s_ = nf.nf(site["args"][0], True, res=R) if site["args"] else ""
+            used = var.get("k") == "Bind" and re.search(r"\b%s\b" % re.escape(var["name"]), s_) is not None
+        if used:
+            ctx.ok("DENS-SEED", fid, "donor generator created per bin and seeded from the bin index `%s`" % hirq.show_pat(var), hirq.loc(site))
+        else:
+            ctx.violation("DENS-SEED", fid, "donor seed does not depend on the bin", hirq.loc(site),
+                          "the generator of the donor search is seeded by `%s`, which does not mention the bin index `%s`" % (nf.nf(site["args"][0], True)[:60] if site["args"] else "", hirq.show_pat(var)))
+    return n
 
 
 def bookkeeping(ctx, facts, prefix):
@@ -314,6 +352,7 @@ def run(ctx, facts):
     n = 0
     for prefix in (OD, RD):
         n += dens_rules(ctx, facts, prefix)
+        dens_seed(ctx, facts, prefix)
         bookkeeping(ctx, facts, prefix)
         idempotent(ctx, facts, prefix)
         empty_guard(ctx, facts, prefix)
